@@ -1,94 +1,14 @@
-// C11: LC_Morph_Graph read from a file. Its nodes carry no identity that the
-// API exposes (nodes live in a per-thread InsertBag, no ids, default node
-// data), so "presents exactly the input" is decided up to isomorphism: exactly
-// when the input's edge data identify every edge (unique data), otherwise by
-// a necessary condition (node/edge counts and colour-refinement signature).
-// Out-of-line lockable does not compile for this type (no getId in NodeInfo).
-#include "c11_ptr.h"
+// C11: morph family, representative subset of the template matrix (quick + thorough)
+#include "c11_fam_morph.h"
 
 namespace c11 {
 
-static const char* MOR = "LC_Morph_Graph";
-
-template <class G>
-void opMorphRead(Ctx& c) {
-  G g;
-  if (c.rng.below(2)) {
-    gg::readGraph(g, c.file());
-  } else {
-    gg::FileGraph f;
-    loadFileGraph(c, f, c.file(), c.rng.below(2), c.esz);
-    gg::readGraph(g, f);
-  }
-  ++c.builds;
-  c.parallelBuilds += c.threads > 1;
-  Indexer<G> ix;
-  ix.build(g, c.X.numNodes + 8);
-  if (!ix.orderOk) {
-    c.fail("read-node-twice", J().kv("nodes", c.X.numNodes).str());
-    return;
-  }
-  Obs o;
-  observeOut(g, ix, o, c.rng.below(2) ? galois::MethodFlag::UNPROTECTED : galois::MethodFlag::WRITE);
-  if (!checkIsomorphic(c, o, c.X, "read"))
-    return;
-  checkEdgeRanges(c, g, ix);
-  checkLocalRanges(c, g, ix);
-  // membership (linear search) against the enumerated, already verified, edges
-  if (o.adj.empty())
-    return;
-  ref::RefGraph seen(o.adj.size());
-  seen.adj = o.adj;
-  for (uint64_t i : sampleNodes(c, o.adj.size(), 32)) {
-    for (uint64_t d : queryDsts(c, seen, i, 8)) {
-      bool has = false;
-      for (auto& e : o.adj[i])
-        has = has || e.dst == d;
-      auto it  = g.findEdge(ix.nodes[i], ix.nodes[d], galois::MethodFlag::UNPROTECTED);
-      auto end = g.edge_end(ix.nodes[i], galois::MethodFlag::UNPROTECTED);
-      bool ok  = has ? (it != end && g.getEdgeDst(it) == ix.nodes[d]) : (it == end);
-      ++c.findQueries;
-      c.findHits += has;
-      if (!ok) {
-        c.fail("findEdge-wrong-answer", J().kv("src_position", i).kv("dst_position", d).kv("edge_exists", has).str());
-        return;
-      }
-    }
-  }
-}
-
-template <class G>
-void regMorph(const std::string& cfg) {
-  using E = typename G::edge_data_type;
-  registry().push_back(mkEntry<E>(MOR, cfg, "read", &opMorphRead<G>, std::is_void_v<E> ? 0u : (unsigned)F_UNIQUE_DATA, 4));
-}
-
-// LC_Morph_Graph<NodeTy, EdgeTy, HasNoLockable, UseNumaAlloc, HasOutOfLineLockable, HasId>
-template <class E, bool NL = false, bool NU = false, class N = uint32_t>
-using Mor = gg::LC_Morph_Graph<N, E, NL, NU>;
-
-template <class E>
-void regMorphFull() {
-  regMorph<Mor<E>>("lock");
-  regMorph<Mor<E, true>>("nolock");
-  regMorph<Mor<E, false, true>>("lock+numa");
-  regMorph<Mor<E, true, true>>("nolock+numa");
-}
-
 void registerMorph() {
-#if 0 // full matrix: see c11_x_*.cpp
-  regMorphFull<void>();
-  regMorphFull<uint32_t>();
-  regMorphFull<uint64_t>();
-  regMorphFull<float>();
-  regMorphFull<E12>();
-#else
   regMorph<Mor<void>>("lock");
   regMorph<Mor<uint32_t>>("lock");
   regMorph<Mor<uint64_t, true, true>>("nolock+numa");
   regMorph<Mor<E12, false, true>>("lock+numa");
   regMorph<Mor<void, true, false, void>>("nolock+voidnode");
-#endif
 }
 
 } // namespace c11
